@@ -62,20 +62,23 @@ func (*vC03Discard) Handle(cx *layer4.Connection, next layer4.Handler) error {
 func init() { caddy.RegisterModule(&vC03Discard{}) }
 
 type vRelaySc struct {
-	peers    int
-	cPayload []byte
-	pre      int
-	uPayload [][]byte
-	cAfter   bool
-	uAfter   []bool
-	wrapper  string // "", throttle, proxy_protocol, tee
-	cChunk   int
-	uChunk   int
-	abort    string // "", client, upstream
-	upNet    string // "" = tcp, "unix", "tls": transport of the upstream connections
-	ppOut    string // proxy_protocol option of the proxy handler ("" or "v1")
-	idle     time.Duration // the client pauses this long in the middle of its stream
-	seed     uint64
+	peers      int
+	cPayload   []byte
+	pre        int
+	uPayload   [][]byte
+	cAfter     bool
+	uAfter     []bool
+	wrapper    string // "", throttle, proxy_protocol, tee
+	cChunk     int
+	uChunk     int
+	abort      string        // "", client, upstream
+	upNet      string        // "" = tcp, "unix", "tls": transport of the upstream connections
+	ppOut      string        // proxy_protocol option of the proxy handler ("" or "v1")
+	idle       time.Duration // the client pauses this long in the middle of its stream
+	uReadDelay time.Duration // the upstreams start consuming what they receive only after this long
+	abortAt    time.Duration // abort == "upstream": when peer 0 resets (after half of its stream); the other peers send
+	// the first half of theirs at once and the second half 120 ms later
+	seed uint64
 }
 
 type vRelaySnap struct {
@@ -284,8 +287,10 @@ func (c *vScriptConn) Close() error {
 	}
 	return nil
 }
-func (c *vScriptConn) LocalAddr() net.Addr              { return &net.TCPAddr{IP: net.IPv4(127, 0, 0, 1), Port: 7} }
-func (c *vScriptConn) RemoteAddr() net.Addr             { return &net.TCPAddr{IP: net.IPv4(127, 0, 0, 1), Port: 40007} }
+func (c *vScriptConn) LocalAddr() net.Addr { return &net.TCPAddr{IP: net.IPv4(127, 0, 0, 1), Port: 7} }
+func (c *vScriptConn) RemoteAddr() net.Addr {
+	return &net.TCPAddr{IP: net.IPv4(127, 0, 0, 1), Port: 40007}
+}
 func (c *vScriptConn) SetDeadline(time.Time) error      { return nil }
 func (c *vScriptConn) SetReadDeadline(time.Time) error  { return nil }
 func (c *vScriptConn) SetWriteDeadline(time.Time) error { return nil }
@@ -448,8 +453,9 @@ func vRunRelay(ctx caddy.Context, sc vRelaySc) (res vRelayRes) {
 	var addrs []string
 	var upWG sync.WaitGroup
 	sockDir := ""
-	release := make(chan struct{}) // closed at the very end: upstream servers close their conns
-	kick := make(chan struct{})    // closed when a stalled scenario is released: whoever waits for EOF stops waiting
+	release := make(chan struct{})   // closed at the very end: upstream servers close their conns
+	kick := make(chan struct{})      // closed when a stalled scenario is released: whoever waits for EOF stops waiting
+	listening := make(chan struct{}) // closed once every upstream listener exists
 	for i := 0; i < n; i++ {
 		var ln net.Listener
 		var err error
@@ -501,18 +507,34 @@ func vRunRelay(ctx caddy.Context, sc vRelaySc) (res vRelayRes) {
 				}
 				_ = tc.SetDeadline(time.Time{})
 			}
-			go u.rec.run(c)
+			if sc.uReadDelay > 0 {
+				go func() { time.Sleep(sc.uReadDelay); u.rec.run(c) }()
+			} else {
+				go u.rec.run(c)
+			}
 			urng := vNewRng(int64(sc.seed) + int64(i) + 1)
 			if sc.abort == "upstream" && i == 0 {
 				_ = vWriteChunks(c, sc.uPayload[i], sc.uChunk, urng, len(sc.uPayload[i])/2)
-				time.Sleep(20 * time.Millisecond)
+				// not before the proxy handler has connected to every peer (the property starts there)
+				<-listening
+				for _, o := range ups {
+					vWaitOr(o.accepted, 3*time.Second)
+				}
+				time.Sleep(5*time.Millisecond + sc.abortAt)
 				if tc, ok := c.(*net.TCPConn); ok {
 					_ = tc.SetLinger(0)
 				}
 				_ = c.Close()
 				return
 			}
-			_ = vWriteChunks(c, sc.uPayload[i], sc.uChunk, urng, -1)
+			if sc.abort == "upstream" {
+				// still sending when (or after, or before) peer 0 is reset
+				_ = vWriteChunks(c, sc.uPayload[i], sc.uChunk, urng, len(sc.uPayload[i])/2)
+				time.Sleep(120 * time.Millisecond)
+				_ = vWriteChunks(c, sc.uPayload[i][len(sc.uPayload[i])/2:], sc.uChunk, urng, -1)
+			} else {
+				_ = vWriteChunks(c, sc.uPayload[i], sc.uChunk, urng, -1)
+			}
 			if sc.uAfter[i] {
 				select {
 				case <-u.rec.end:
@@ -524,6 +546,7 @@ func vRunRelay(ctx caddy.Context, sc vRelaySc) (res vRelayRes) {
 			_ = c.Close()
 		}(i, u)
 	}
+	close(listening)
 	defer func() {
 		close(release)
 		for _, u := range ups {
@@ -832,10 +855,10 @@ func (sc vRelaySc) describe() map[string]any {
 	}
 	return map[string]any{"peers": sc.peers, "client_bytes": len(sc.cPayload), "prefetched": sc.pre, "upstream_bytes": ul,
 		"client_fin_after_eof": sc.cAfter, "upstream_fin_after_eof": sc.uAfter, "wrapper": sc.wrapper,
-		"client_chunk": sc.cChunk, "upstream_chunk": sc.uChunk, "abort": sc.abort, "upstream_network": nonEmpty(sc.upNet, "tcp"), "proxy_protocol_out": sc.ppOut, "client_idle_ms": sc.idle.Milliseconds(), "seed": sc.seed}
+		"client_chunk": sc.cChunk, "upstream_chunk": sc.uChunk, "abort": sc.abort, "upstream_network": nonEmpty(sc.upNet, "tcp"), "peer0_reset_after_ms": sc.abortAt.Milliseconds(), "upstream_read_delay_ms": sc.uReadDelay.Milliseconds(), "proxy_protocol_out": sc.ppOut, "client_idle_ms": sc.idle.Milliseconds(), "seed": sc.seed}
 }
 
-func bytesEq(a, b []byte) bool { return string(a) == string(b) }
+func bytesEq(a, b []byte) bool  { return string(a) == string(b) }
 func isPrefix(a, b []byte) bool { return len(a) <= len(b) && string(a) == string(b[:len(a)]) }
 
 // the property text evaluated on the observables; returns the failures (key, detail)
@@ -862,9 +885,16 @@ func vRelayOracle(sc vRelaySc, r vRelayRes) [][2]string {
 			}
 			// the client->upstream direction has ended (with an error): every upstream that is still
 			// there must observe end-of-stream without anybody else having to act
+			// a peer that was reset takes nothing away from the others: everything they send reaches the client
+			if sc.abort == "upstream" && i != 0 && !bytesEq(proj[i], sc.uPayload[i]) {
+				add("C03:relay:client-bytes-differ", fmt.Sprintf("peer 0 was reset; the client received %d bytes from peer %d, which sent %d and was not disturbed", len(proj[i]), i, len(sc.uPayload[i])))
+			}
 			if sc.uAfter[i] && !(sc.abort == "upstream" && i == 0) && !r.s1.upEOF[i] {
 				add("C03:halfclose:upstream-eof-missing", fmt.Sprintf("the client->upstream direction ended with an error (%s reset) but upstream %d, waiting for end-of-stream, did not observe it", sc.abort, i))
 			}
+		}
+		if sc.abort == "upstream" && !fin.cliEOF {
+			add("C03:halfclose:client-eof-missing", "one peer was reset, the others finished: the client must see end-of-stream after the last of them, not an error")
 		}
 		if r.stalled {
 			add("C03:cleanup:handle-never-returned", "after the abrupt close Handle did not return although every remaining peer finishes as soon as it sees end-of-stream")
@@ -937,6 +967,8 @@ func vRelayCase(out *vOut, sc vRelaySc, r vRelayRes) {
 	}
 	proj := vProjCli(s.cli, sc.peers)
 	switch {
+	case sc.abort != "" && maxU > 16384:
+		// too large to be spelled out in a Coq term: the prefix relations are checked by the oracle only
 	case sc.abort != "":
 		out.Case(fmt.Sprintf("RAbort %d %s %s %s %s %s %s", sc.peers, cHex(sc.cPayload), vHexList(sc.uPayload), vHexList(r.s1.up), vHexList(vProjCli(r.s1.cli, sc.peers)),
 			cBool(r.s1.returned), vBoolList(r.s1.closed)), "abort-"+sc.abort+"/"+cls, true, sc.describe())
@@ -1073,7 +1105,7 @@ func TestVerifC03(t *testing.T) {
 
 	var scs []vRelaySc
 	mk := func(peers, clen, pre int, ulen []int, cAfter bool, uAfter bool, wrapper string, cChunk, uChunk int, abort string) vRelaySc {
-		sc := vRelaySc{peers: peers, pre: pre, cAfter: cAfter, wrapper: wrapper, cChunk: cChunk, uChunk: uChunk, abort: abort, seed: rng.U64() >> 1}
+		sc := vRelaySc{peers: peers, pre: pre, cAfter: cAfter, wrapper: wrapper, cChunk: cChunk, uChunk: uChunk, abort: abort, abortAt: 20 * time.Millisecond, seed: rng.U64() >> 1}
 		sc.cPayload = rng.Bytes(clen)
 		if pre > clen {
 			sc.pre = clen
@@ -1147,6 +1179,23 @@ func TestVerifC03(t *testing.T) {
 			sc := mk(2+i/4, 4000+rng.Intn(4000), 0, []int{400 + rng.Intn(400)}, false, true, "", 200, 0, "upstream")
 			scs = append(scs, sc)
 		}
+	}
+	// 3b'. one peer of 2..3 is reset before / while / after the others send (they stream 4..260 KiB in two
+	// halves 120 ms apart): the others' bytes all reach the client, which sees end-of-stream at the end
+	for i := 0; i < 6; i++ {
+		sc := mk(2+i%2, 3000+rng.Intn(3000), 0, []int{4000 + rng.Intn(4000), []int{5000, 262144, 70000}[i%3], 9000}, false, i%2 == 0, "", 300, []int{0, 8192}[i%2], "upstream")
+		sc.abortAt = []time.Duration{0, 20 * time.Millisecond, 60 * time.Millisecond, 200 * time.Millisecond}[rng.Intn(4)]
+		if i < 2 {
+			sc.abortAt = 20 * time.Millisecond
+		}
+		scs = append(scs, sc)
+	}
+	// 3b''. upstreams that answer and finish at once but consume the client's stream late: Handle returns while
+	// the client's bytes are still queued towards them; closing the upstream connections must not drop them
+	for i := 0; i < 3; i++ {
+		sc := mk(1+i%2, []int{200000, 3 << 20, 50000}[i], 0, []int{300, 2000}, false, false, []string{"", "", "throttle"}[i], 0, 0, "")
+		sc.uReadDelay = 300 * time.Millisecond
+		scs = append(scs, sc)
 	}
 	// 3c. upstream peers over unix sockets (no WriteTo/ReadFrom fast path in io.Copy), 2..3 peers
 	// streaming large payloads at the same time
